@@ -21,6 +21,11 @@ THEOREMS = [
     "Canopen.C10.spec_order_stable",
     "Canopen.C10.no_dup_on_resubscribe",
     "Canopen.C10.removed_node_silent",
+    "Canopen.C10.absent_node_silent",
+    "Canopen.C10.node_table_coherent",
+    "Canopen.C10.clear_fuel",
+    "Canopen.C10.clear_stops_only_on_failure",
+    "Canopen.C10.listener_flags_irrelevant",
     "Canopen.C10.frame_format",
     "Canopen.C10.periodic_update_frame",
     "Canopen.C10.listener_filter",
@@ -49,10 +54,16 @@ FINGERPRINT = [
     "canopen.node.local:LocalNode.associate_network",
     "canopen.node.local:LocalNode.remove_network",
     "canopen.node.base:BaseNode.has_network",
+    # Network.__getitem__ / __iter__ / __len__ (node table, iteration order) are covered by the hash of the whole
+    # module canopen.network
 ]
 TRUSTED = [
     "Python dict/list semantics (setdefault, `in`, append, remove, del) and bound-method equality "
     "(same __self__ object and same function) modelled as a function CAN id -> optional list of tags",
+    "collections.abc.MutableMapping mix-ins (pop, popitem, clear, update, setdefault; Python 3.12 source) "
+    "transcribed on top of __getitem__/__setitem__/__delitem__/__iter__: popitem takes the first key of the "
+    "iteration, clear = popitem until KeyError (any KeyError, also one out of remove_network, is swallowed), "
+    "pop's `del` is outside its try; dict iteration order = insertion order, a re-assigned key keeps its place",
     "python-can can.Message constructor modelled (a remote frame keeps no data); Bus/Notifier not "
     "modelled: frames enter through Network.notify or MessageListener.on_message_received",
     "Spec/Multimap.lean (append-if-absent / erase multimap; per-(id,callback) activity bit) and "
@@ -70,15 +81,21 @@ ASSUMPTIONS = [
     "(Network.__setitem__ asserts it)",
 ]
 RULE = ("h: random histories (subscribe / unsubscribe one or all / add, replace, delete local and "
-        "remote nodes / add_sdo / notify / listener frames incl. error and remote frames / scanner "
-        "reset and read) over a pool of 6-9 CAN ids that contains the nodes' own COB-IDs, 0, 0x7E4 "
+        "remote nodes through every entry of the mapping API: add_node/create_node, network[id]=node, "
+        "setdefault, update (dict, keys()-object, iterable of pairs), del, pop, pop with default, popitem, "
+        "clear, with len/iteration/keys/items/values/in/get read back / add_sdo / notify / listener frames "
+        "with every attribute of can.Message varied (error, remote, is_rx, is_extended_id, is_fd, "
+        "bitrate_switch, error_state_indicator, dlc, channel; through on_message_received and the way "
+        "can.Notifier calls a listener) / scanner reset and read) over a pool of 6-9 CAN ids that contains the nodes' own COB-IDs, 0, 0x7E4 "
         "and a 29-bit id, 8 user callbacks (two of them raise) plus the node handlers themselves, "
         "3 node ids, 4-6 node objects local/remote mixed, lengths 5..400, every map entry probed at "
-        "the end; one replace/remove script per node id 1..127; every 11-bit id once through "
+        "the end; one replace/remove script per node id 1..127; per node id removal/replacement scripts "
+        "through each of the 10 mapping entries (quick: 2 per node id, all 10 for ids 1 and 127); all 128 "
+        "combinations of the 7 frame flags on the node's COB-IDs, a user id and a 29-bit id; every 11-bit id once through "
         "notify/listener with the scanner read back; scan: every 11-bit id alone, "
         "boundary and seeded 29-bit ids, random id lists; tx/ptx: every 11-bit id, boundary and "
         "seeded 29-bit ids, data lengths 0..8, remote flag; fx (oracle only): real handlers' "
-        "effects before/after removal.  non-trivial = at least one callback was invoked / a frame "
+        "effects before/after removal through del/pop/popitem/clear/replacement.  non-trivial = at least one callback was invoked / a frame "
         "was built / the scanner listed a node")
 
 logging.getLogger("canopen").setLevel(logging.CRITICAL + 1)
@@ -125,6 +142,25 @@ class FakeBus:
 
 class _Boom(Exception):
     pass
+
+
+_DEFAULT = object()          # the default handed to pop() / get()
+CHANNELS = [None, 0, "can0", 1, "vcan1"]
+
+
+def bus_message(a):
+    """the can.Message of an `r` step; the long form gives every attribute"""
+    cid, ts = int(a[1]), float(int(a[3]))
+    fl = a[4]
+    if len(a) == 5:
+        return can.Message(arbitration_id=cid, data=unhx(a[2]), timestamp=ts,
+                           is_extended_id=cid > 0x7FF, is_error_frame=fl[0] == "1",
+                           is_remote_frame=fl[1] == "1")
+    return can.Message(arbitration_id=cid, data=unhx(a[2]), timestamp=ts,
+                       is_error_frame=fl[0] == "1", is_remote_frame=fl[1] == "1", is_rx=fl[2] == "1",
+                       is_extended_id=fl[3] == "1", is_fd=fl[4] == "1", bitrate_switch=fl[5] == "1",
+                       error_state_indicator=fl[6] == "1", dlc=int(a[5]),
+                       channel=CHANNELS[int(a[6]) % len(CHANNELS)])
 
 
 _HANDLERS = [  # (class, method name)
@@ -217,6 +253,78 @@ class World:
                     return f"o{o}.s{k}"
         return f"?{type(slf).__name__}.{name}"
 
+    def obj_tag(self, node):
+        for o, cand in enumerate(self.objs):
+            if cand is node:
+                return f"o{o}"
+        return "D" if node is _DEFAULT else f"?{type(node).__name__}"
+
+    def view(self):
+        """len / iteration / keys() / values() / items() / `in` / get / [] of the network, as one token; any
+        disagreement between them shows"""
+        net = self.net
+        keys = list(net)
+        odd = []
+        if len(net) != len(keys):
+            odd.append(f"len={len(net)}")
+        if list(net.keys()) != keys:
+            odd.append("keys()=" + "/".join(map(str, net.keys())))
+        vals = list(net.values())
+        items = list(net.items())
+        if [k for k, _ in items] != keys or len(vals) != len(keys) \
+                or any(v is not w for (_, v), w in zip(items, vals)):
+            odd.append("items/values")
+        for k, v in zip(keys, vals):
+            if k not in net or net.get(k, _DEFAULT) is not v or net[k] is not v:
+                odd.append(f"in/get/[]@{k}")
+        for nid in sorted({nid for nid, _ in self.env} | {0, 128}):
+            if nid not in keys:
+                try:
+                    net[nid]
+                    odd.append(f"[]@{nid}")
+                except KeyError:
+                    pass
+                if nid in net or net.get(nid, _DEFAULT) is not _DEFAULT:
+                    odd.append(f"in/get@{nid}")
+        body = ",".join(f"{k}={self.obj_tag(v)}" for k, v in zip(keys, vals))
+        return "v[" + body + "]" + ("!" + ";".join(odd) if odd else "")
+
+    def update(self, form, objs):
+        """network.update(...) in one of the three shapes MutableMapping.update accepts; returns the number of
+        items handed over when it raised, None when it returned"""
+        pairs = [(self.objs[o].id, self.objs[o]) for o in objs]
+        if form in ("d", "k") and len({k for k, _ in pairs}) != len(pairs):
+            form = "i"                     # a dict cannot hold one key twice
+        taken = [0]
+        if form == "d":
+            src = dict(pairs)
+
+            class Watch(dict):
+                def __getitem__(s, key):
+                    taken[0] += 1
+                    return dict.__getitem__(s, key)
+            arg = Watch(src)
+        elif form == "k":
+            class Keyed:
+                def keys(s):
+                    return [k for k, _ in pairs]
+
+                def __getitem__(s, key):
+                    taken[0] += 1
+                    return dict(pairs)[key]
+            arg = Keyed()
+        else:
+            def it():
+                for pr in pairs:
+                    taken[0] += 1
+                    yield pr
+            arg = it()
+        try:
+            self.net.update(arg)
+        except Exception:
+            return taken[0] - 1
+        return None
+
     def calls(self, can_id, data, ts):
         """Canonical invocation list since the last call; an invocation whose arguments are not
         the frame's own shows them."""
@@ -273,11 +381,41 @@ def run_history(env_s, steps):
                         out.append("err" + w.calls(cid, data, ts))
                 elif k == "r":
                     cid, ts = int(a[1]), float(int(a[3]))
-                    msg = can.Message(arbitration_id=cid, data=unhx(a[2]), timestamp=ts,
-                                      is_extended_id=cid > 0x7FF, is_error_frame=a[4][0] == "1",
-                                      is_remote_frame=a[4][1] == "1")
-                    w.net.listeners[0].on_message_received(msg)
+                    msg = bus_message(a)
+                    if len(a) == 5:
+                        w.net.listeners[0].on_message_received(msg)
+                    else:
+                        for listener in w.net.listeners:     # what can.Notifier does with a frame
+                            listener(msg)
                     out.append("ok" + w.calls(cid, msg.data, ts))
+                elif k == "i":
+                    node = w.objs[int(a[1])]
+                    w.net[node.id] = node
+                    out.append("ok")
+                elif k == "p":
+                    out.append("ok=" + w.obj_tag(w.net.pop(int(a[1]))))
+                elif k == "pd":
+                    out.append("ok=" + w.obj_tag(w.net.pop(int(a[1]), _DEFAULT)))
+                elif k == "pi":
+                    key, node = w.net.popitem()
+                    out.append(f"ok={key}/" + w.obj_tag(node))
+                elif k == "x":
+                    try:
+                        w.net.clear()
+                        r = "ok"
+                    except Exception:
+                        r = "err"
+                    out.append(r + "<" + ",".join(str(n) for n in w.net) + ">")
+                elif k == "up":
+                    if a[1] not in ("d", "k", "i"):
+                        return "bad-op"
+                    at = w.update(a[1], [] if a[2] == "-" else [int(o) for o in a[2].split("+")])
+                    out.append("ok" if at is None else f"err@{at}")
+                elif k == "sd":
+                    node = w.objs[int(a[1])]
+                    out.append("ok=" + w.obj_tag(w.net.setdefault(node.id, node)))
+                elif k == "v":
+                    out.append(w.view())
                 elif k == "z":
                     w.net.scanner.reset()
                     out.append("ok")
@@ -372,7 +510,8 @@ def effects(w):
 
 
 def run_effects(env_s, steps):
-    """Same step language (a/d/n/c only); frames are well-formed for the service of their id.
+    """Same step language (a/d/n/c and the mapping steps i/p/pd/pi/x/up/sd); frames are well-formed for the
+    service of their id.
     Output: after every step the effect tuples of all objects."""
     env = parse_env(env_s)
     w = World(env)
@@ -386,6 +525,26 @@ def run_effects(env_s, steps):
                 r = "ok"
             elif a[0] == "d":
                 del w.net[int(a[1])]
+                r = "ok"
+            elif a[0] == "i":
+                w.net[w.objs[int(a[1])].id] = w.objs[int(a[1])]
+                r = "ok"
+            elif a[0] == "p":
+                w.net.pop(int(a[1]))
+                r = "ok"
+            elif a[0] == "pd":
+                w.net.pop(int(a[1]), _DEFAULT)
+                r = "ok"
+            elif a[0] == "pi":
+                w.net.popitem()
+                r = "ok"
+            elif a[0] == "x":
+                w.net.clear()
+                r = "ok"
+            elif a[0] == "up":
+                r = "ok" if w.update(a[1], [int(o) for o in a[2].split("+")]) is None else "err"
+            elif a[0] == "sd":
+                w.net.setdefault(w.objs[int(a[1])].id, w.objs[int(a[1])])
                 r = "ok"
             elif a[0] == "c":
                 w.objs[int(a[1])].add_sdo(0x600, int(a[2]))
@@ -418,14 +577,37 @@ def oracle_effects(op, out):
         cur = eval(tok[2 if ok else 3:], {"__builtins__": {}}, {"None": None})  # tuples of ints only
         s = st.split(":")
         exp = [list(p) if len(p) == 1 else [p[0], p[1], list(p[2])] for p in prev]
-        if s[0] == "a":
+        if s[0] in ("a", "i"):
             if not ok:
                 return f"effects: step {i} adding a node raised"
             reg[env[int(s[1])][0]] = int(s[1])
-        elif s[0] == "d":
+        elif s[0] in ("d", "p"):
+            if ok != (int(s[1]) in reg):
+                return (f"effects: step {i} ({st}) removing a node id that is "
+                        f"{'in the network raised' if not ok else 'not in the network returned'}")
+            reg.pop(int(s[1]), None)
+        elif s[0] == "pd":
             if not ok:
-                return f"effects: step {i} deleting a registered node raised"
-            del reg[int(s[1])]
+                return f"effects: step {i} ({st}) pop(id, default) raised"
+            reg.pop(int(s[1]), None)
+        elif s[0] == "pi":
+            if ok != bool(reg):
+                return f"effects: step {i} ({st}) popitem() {'raised' if not ok else 'of an empty network returned'}"
+            if reg:
+                del reg[next(iter(reg))]
+        elif s[0] == "x":
+            if not ok:
+                return f"effects: step {i} ({st}) clear() raised"
+            reg.clear()
+        elif s[0] == "up":
+            if not ok:
+                return f"effects: step {i} ({st}) update() raised"
+            for o in s[2].split("+"):
+                reg[env[int(o)][0]] = int(o)
+        elif s[0] == "sd":
+            if not ok:
+                return f"effects: step {i} ({st}) setdefault() raised"
+            reg.setdefault(env[int(s[1])][0], int(s[1]))
         elif s[0] == "c":
             chans[int(s[1])].append(int(s[2]))
             exp[int(s[1])][2].append(0)
@@ -484,6 +666,18 @@ def parse_calls(tok):
     return tok[:i], (body.split(",") if body else [])
 
 
+def parse_keys(tok):
+    """'ok<5,7>' -> ('ok', [5, 7])"""
+    i = tok.find("<")
+    if i < 0 or not tok.endswith(">"):
+        return tok, None
+    body = tok[i + 1:-1]
+    try:
+        return tok[:i], ([int(x) for x in body.split(",")] if body else [])
+    except ValueError:
+        return tok, None
+
+
 def oracle_history(op, out):
     a = op.split(" ")
     env = parse_env(a[1])
@@ -526,6 +720,20 @@ def oracle_history(op, out):
                 taint.add((j, c))
         return False
 
+    def do_set(o, ok, i, st):
+        """network[node.id] = node (add_node, create_node, update, setdefault on a free id)"""
+        nid = env[o][0]
+        if nid in reg:
+            r = remove_old(reg[nid], ok, i, st)
+            if r or r is False:
+                return r or None
+        elif not ok:
+            return f"add: step {i} ({st}): adding a node on a free node id raised"
+        reg[nid] = o          # a dict keeps the position of a key that is assigned again
+        for j, c in handlers(o):
+            sub(j, c)
+        return None
+
     for i, (st, tok) in enumerate(zip(steps, toks)):
         s = st.split(":")
         k = s[0]
@@ -547,31 +755,94 @@ def oracle_history(op, out):
                         return f"unsubscribe: step {i} ({st}): a subscribed callback could not be removed"
                     M[j].remove(s[2])
                 taint.discard((j, s[2]))
-        elif k == "a":
+        elif k in ("a", "i"):
+            r = do_set(int(s[1]), tok == "ok", i, st)
+            if r:
+                return r
+            if tok not in ("ok", "err"):
+                return f"harness: step {i} ({st}) -> {tok}"
+        elif k in ("d", "p", "pd", "pi"):
+            res, _, val = tok.partition("=")
+            ok = res == "ok"
+            if res not in ("ok", "err") or (k == "d" and val):
+                return f"harness: step {i} ({st}) -> {tok}"
+            if k == "pi":
+                nid = next(iter(reg), None)
+            else:
+                nid = int(s[1])
+            if nid is None or nid not in reg:
+                # nothing to remove: KeyError, or the default handed to pop()
+                if k == "pd":
+                    if tok != "ok=D":
+                        return (f"node-table: step {i} ({st}): pop(id, default) of an id that is not in the "
+                                f"network gave {tok}, expected the default")
+                elif ok:
+                    return (f"node-table: step {i} ({st}): nothing to remove "
+                            f"({'the network is empty' if nid is None else f'node id {nid} is not in the network'}) "
+                            f"but the call returned {tok}")
+                continue
+            old = reg[nid]
+            r = remove_old(old, ok, i, st)
+            if r:
+                return r
+            if r is False:
+                continue
+            del reg[nid]
+            want = {"d": "", "p": f"o{old}", "pd": f"o{old}", "pi": f"{nid}/o{old}"}[k]
+            if val != want:
+                return (f"node-table: step {i} ({st}): removed node object {old} (node id {nid}, the "
+                        f"{'first in iteration order' if k == 'pi' else 'one asked for'}) but the call returned "
+                        f"{val or 'nothing'}, expected {want}")
+        elif k == "x":
+            res, keys = parse_keys(tok)
+            if keys is None or res not in ("ok", "err"):
+                return f"harness: step {i} ({st}) -> {tok}"
+            before = list(reg)
+            if any(n not in reg for n in keys) or len(set(keys)) != len(keys):
+                return (f"node-table: step {i} ({st}): after clear() the network lists {keys}, before it "
+                        f"held {before}")
+            def complete(o):
+                return all((j, c) not in taint and c in M.get(j, []) for j, c in handlers(o))
+            stuck = [n for n in keys if not complete(reg[n])]
+            if keys and not stuck:
+                return (f"removal: step {i} ({st}): clear() left node id(s) {keys} in the network although "
+                        f"all their handlers are subscribed (nothing can have made their removal fail)")
+            if not keys and res != "ok":
+                return f"removal: step {i} ({st}): clear() removed every node and still raised"
+            for n in before:
+                if n not in keys:
+                    r = remove_old(reg[n], True, i, st)
+                    del reg[n]
+            for n in stuck:          # any of these may be the one whose removal stopped half-way
+                remove_old(reg[n], False, i, st)
+        elif k == "up":
+            objs = [] if s[2] == "-" else [int(o) for o in s[2].split("+")]
+            if tok == "ok":
+                at = len(objs)
+            elif tok.startswith("err@") and tok[4:].isdigit() and int(tok[4:]) < len(objs):
+                at = int(tok[4:])
+            else:
+                return f"harness: step {i} ({st}) -> {tok}"
+            for n_, o in enumerate(objs[:at + 1]):
+                r = do_set(o, n_ < at, i, st)
+                if r:
+                    return r
+        elif k == "sd":
             o = int(s[1])
             nid = env[o][0]
-            ok = tok == "ok"
             if nid in reg:
-                r = remove_old(reg[nid], ok, i, st)
-                if r:
-                    return r
-                if r is False:
-                    continue
-            elif not ok:
-                return f"add: step {i} ({st}): adding a node on a free node id raised"
-            reg[nid] = o
-            for j, c in handlers(o):
-                sub(j, c)
-        elif k == "d":
-            nid = int(s[1])
-            ok = tok == "ok"
-            if nid in reg:
-                r = remove_old(reg[nid], ok, i, st)
-                if r:
-                    return r
-                if r is False:
-                    continue
-                del reg[nid]
+                if tok != f"ok=o{reg[nid]}":
+                    return (f"node-table: step {i} ({st}): setdefault on node id {nid}, which holds node "
+                            f"object {reg[nid]}, gave {tok} (it must hand back that node and change nothing)")
+            else:
+                if tok != f"ok=o{o}":
+                    return f"add: step {i} ({st}): setdefault on a free node id gave {tok}"
+                do_set(o, True, i, st)
+        elif k == "v":
+            want = "v[" + ",".join(f"{n}=o{o}" for n, o in reg.items()) + "]"
+            if tok != want:
+                return (f"node-table: step {i} ({st}): len / iteration / keys / items / in / get of the "
+                        f"network show {tok}, the history of additions and removals gives {want}")
         elif k == "c":
             o = int(s[1])
             if not env[o][1]:
@@ -683,12 +954,16 @@ def nontrivial(op, out):
     return out.startswith("ok")
 
 
+MAPPING_STEPS = ("i", "p", "pd", "pi", "x", "up", "sd", "v")
+
+
 def classify(op, out):
     a = op.split(" ")
     if a[0] == "h":
         n = len(a) - 2
         size = "<=20" if n <= 20 else "<=100" if n <= 100 else ">100"
-        return f"h:{size}:{'err' if 'err' in out else 'clean'}"
+        mp = any(t.split(":")[0] in MAPPING_STEPS for t in a[2:])
+        return f"h:{size}:{'err' if 'err' in out else 'clean'}{':map' if mp else ''}"
     if a[0] == "scan":
         return "scan:" + ("hit" if out != "q[]" else "none")
     if a[0] == "fx":
@@ -714,6 +989,18 @@ def shrink_candidates(op):
             if size == 1:
                 break
             size //= 2
+        for k, st in enumerate(steps):      # smaller steps: shorter update lists, plain frames
+            f = st.split(":")
+            if f[0] == "up" and "+" in f[2]:
+                objs = f[2].split("+")
+                for j in range(len(objs)):
+                    yield " ".join(head + steps[:k] + [f"up:{f[1]}:" + "+".join(objs[:j] + objs[j + 1:])]
+                                   + steps[k + 1:])
+            elif f[0] == "r" and len(f) == 8:
+                n_ = 0 if f[2] == "-" else len(f[2]) // 2
+                plain = f[4][:2] + "1" + ("1" if int(f[1]) > 0x7FF else "0") + "000"
+                if (f[4], f[5], f[6]) != (plain, str(n_), "0"):
+                    yield " ".join(head + steps[:k] + [f"r:{f[1]}:{f[2]}:{f[3]}:{plain}:{n_}:0"] + steps[k + 1:])
     elif a[0] == "scan" and a[1] != "-":
         ids = a[1].split(",")
         for i in range(len(ids)):
@@ -728,6 +1015,67 @@ def shrink_candidates(op):
 def rdata(rng):
     n = rng.choice([0, 1, 2, 8, 8, rng.randrange(0, 9)])
     return hx(bytes(rng.getrandbits(8) for _ in range(n)))
+
+
+def rflags(rng, cid, ts, fl):
+    """a listener frame with every attribute of can.Message chosen: is_rx, is_extended_id (not tied to the id),
+    is_fd, bitrate_switch, error_state_indicator, dlc (mostly, not always, the data length), channel"""
+    fd = rng.random() < 0.25
+    if fd and rng.random() < 0.5:
+        data = hx(bytes(rng.getrandbits(8) for _ in range(rng.choice([12, 16, 24, 64]))))
+    else:
+        data = rdata(rng)
+    n = 0 if data == "-" else len(data) // 2
+    flags = fl + rng.choice("01") + rng.choice("01") + ("1" if fd else "0") \
+        + ("1" if fd and rng.random() < 0.5 else rng.choice("0001")) + rng.choice("0001")
+    dlc = n if rng.random() < 0.7 else rng.choice([0, 1, 8, 15, n + 1, 64])
+    return f"r:{cid}:{data}:{ts}:{flags}:{dlc}:{rng.randrange(5)}"
+
+
+REMOVALS = ("d", "p", "pd", "pi", "x", "i", "a", "up:d", "up:k", "up:i")
+
+
+def mapping_script(nid, kind, rng):
+    """two nodes registered (one under `nid`, remote, with an extra SDO channel; one local under another id),
+    then the node under `nid` is removed / replaced in one of the ways the mapping API offers; every COB-ID of
+    both nodes is probed before and after, the node table is read back"""
+    other = nid % 127 + 1
+    ids = [0, 0x700 + nid, 0x80 + nid, 0x580 + nid, 0x600 + nid, 0x5C0 + (nid & 0x3F), 0x600 + other]
+    ts = [0]
+
+    def probe():
+        out = []
+        for c in ids:
+            ts[0] += 1
+            out.append(f"n:{c}:{rdata(rng)}:{ts[0]}" if rng.random() < 0.5 else rflags(rng, c, ts[0], "00"))
+        return out
+    # objects: 0 remote nid, 1 local other, 2 local nid (the replacement), 3 remote nid
+    first = ["a:0", "a:1"] if kind != "pi" or rng.random() < 0.5 else ["a:0", "sd:1"]
+    steps = first + [f"c:0:{0x5C0 + (nid & 0x3F)}", "v"] + probe()
+    if kind in ("d", "p", "pd"):
+        steps.append(f"{kind}:{nid}")
+    elif kind in ("pi", "x"):
+        steps.append(kind)
+    elif kind in ("i", "a"):
+        steps.append(f"{kind}:2")
+    else:
+        steps.append(f"{kind}:" + rng.choice(["2", "2+1", "1+2", "3+2" if kind == "up:i" else "2"]))
+    steps += ["v"] + probe()
+    steps += [rng.choice(["x", "pi", f"pd:{nid}", f"sd:3", "up:i:3+0"]), "v"] + probe() + ["x", "v"] + probe() + ["q"]
+    return f"h {nid}r,{other}l,{nid}l,{nid}r " + " ".join(steps)
+
+
+def flag_sweep(cid, nid, rng, remote):
+    """every combination of the seven flags of a received frame on one CAN id, through the listener"""
+    combos = list(range(128))
+    rng.shuffle(combos)
+    steps = ["a:0", f"s:{cid}:u0", f"s:{cid}:u1"]
+    for t, m in enumerate(combos):
+        bits = f"{m:07b}"
+        data = rdata(rng)
+        n = 0 if data == "-" else len(data) // 2
+        steps.append(f"r:{cid}:{data}:{t + 1}:{bits}:{rng.choice([n, n, 0, 8, 15])}:{rng.randrange(5)}")
+    return f"h {nid}{'r' if remote else 'l'} " + " ".join(steps) + " q"
 
 
 def gen_history(rng, length, nids=None):
@@ -761,6 +1109,43 @@ def gen_history(rng, length, nids=None):
             return f"u{rng.randrange(RAISING_FROM, N_USER)}"
         return f"u{rng.randrange(0, RAISING_FROM)}"
 
+    def add_step():
+        """one of the ways a node gets into the network (or replaces the one filed under its id)"""
+        o = rng.randrange(nobj)
+        v = rng.random()
+        if v < 0.55:
+            return f"a:{o}"
+        if v < 0.70:
+            return f"i:{o}"
+        if v < 0.82:
+            return f"sd:{o}"
+        form = rng.choice("dki")
+        objs = [rng.randrange(nobj) for _ in range(rng.choice([1, 2, 2, 3, 4]))]
+        if form != "i":                     # a mapping holds every key once
+            seen, uniq = set(), []
+            for x in objs:
+                if env[x][0] not in seen:
+                    seen.add(env[x][0])
+                    uniq.append(x)
+            objs = uniq
+        if rng.random() < 0.05:
+            objs = []
+        return f"up:{form}:" + ("+".join(map(str, objs)) or "-")
+
+    def del_step():
+        """one of the ways a node leaves the network"""
+        nid = rng.choice(nids) if rng.random() < 0.92 else rng.choice([0, 128, nids[0] % 127 + 1])
+        v = rng.random()
+        if v < 0.40:
+            return f"d:{nid}"
+        if v < 0.55:
+            return f"p:{nid}"
+        if v < 0.70:
+            return f"pd:{nid}"
+        if v < 0.86:
+            return "pi"
+        return "x"
+
     steps = []
     ts = 0
     for _ in range(length):
@@ -771,9 +1156,13 @@ def gen_history(rng, length, nids=None):
         elif r < 0.30:
             steps.append(f"u:{cid}:{'*' if rng.random() < 0.2 else any_cb()}")
         elif r < 0.41:
-            steps.append(f"a:{rng.randrange(nobj)}")
+            steps.append(add_step())
+            if rng.random() < 0.15:
+                steps.append("v")
         elif r < 0.47:
-            steps.append(f"d:{rng.choice(nids)}")
+            steps.append(del_step())
+            if rng.random() < 0.4:
+                steps.append("v")
         elif r < 0.50:
             o = rng.randrange(nobj)
             steps.append(f"c:{o}:{rng.choice(pool + [0x5C0 + env[o][0]])}")
@@ -785,15 +1174,22 @@ def gen_history(rng, length, nids=None):
         elif r < 0.93:
             ts += 1
             fl = rng.choice(["00", "00", "00", "10", "01", "11"])
-            steps.append(f"r:{cid}:{rdata(rng)}:{ts}:{fl}")
+            if rng.random() < 0.4:
+                steps.append(f"r:{cid}:{rdata(rng)}:{ts}:{fl}")
+            else:
+                steps.append(rflags(rng, cid, ts, fl))
         elif r < 0.94:
             steps.append("z")
         else:
-            steps.append("q")
-    for cid in pool:                      # probe the whole map, then the scanner
+            steps.append("q" if rng.random() < 0.6 else "v")
+    for cid in pool:                      # probe the whole map, then the scanner and the node table
         ts += 1
-        steps.append(f"r:{cid}:{rdata(rng)}:{ts}:00")
+        if rng.random() < 0.5:
+            steps.append(f"r:{cid}:{rdata(rng)}:{ts}:00")
+        else:
+            steps.append(rflags(rng, cid, ts, "00"))
     steps.append("q")
+    steps.append("v")
     envs = ",".join(f"{nid}{'l' if loc else 'r'}" for nid, loc in env)
     return f"h {envs} " + " ".join(steps)
 
@@ -825,12 +1221,37 @@ def gen_effects(rng, length):
         r = rng.random()
         if r < 0.2:
             o = rng.randrange(len(env))
-            steps.append(f"a:{o}")
-            reg[env[o][0]] = o
+            v = rng.random()
+            if v < 0.5:
+                steps.append(f"a:{o}")
+                reg[env[o][0]] = o
+            elif v < 0.65:
+                steps.append(f"i:{o}")
+                reg[env[o][0]] = o
+            elif v < 0.8:
+                steps.append(f"sd:{o}")
+                reg.setdefault(env[o][0], o)
+            else:
+                o2 = rng.randrange(len(env))
+                form = "i" if env[o][0] == env[o2][0] else rng.choice("dki")
+                steps.append(f"up:{form}:{o}+{o2}")
+                reg[env[o][0]] = o
+                reg[env[o2][0]] = o2
         elif r < 0.3 and reg:
             nid = rng.choice(sorted(reg))
-            steps.append(f"d:{nid}")
-            del reg[nid]
+            v = rng.random()
+            if v < 0.4:
+                steps.append(f"d:{nid}")
+                del reg[nid]
+            elif v < 0.55:
+                steps.append(f"{rng.choice(['p', 'pd'])}:{nid}")
+                del reg[nid]
+            elif v < 0.8:
+                steps.append("pi")
+                del reg[next(iter(reg))]
+            else:
+                steps.append("x")
+                reg.clear()
         elif r < 0.33:
             o = rng.choice([0, 2, 3])
             tx = 0x5C0 + rng.randrange(1, 4)
@@ -910,6 +1331,16 @@ def gen_ops(tier, rng):
     # --- per node id 1..127: replace / delete scripts
     for nid in range(1, 128):
         yield node_script(nid, rng)
+    # --- per node id 1..127: removal / replacement through every method of the mapping API
+    for nid in range(1, 128):
+        for j, kind in enumerate(REMOVALS):
+            if thorough or (nid + j) % 5 == 0 or nid in (1, 127):
+                yield mapping_script(nid, kind, rng)
+    # --- every combination of the flags of a received frame
+    for nid in ([1, 5, 64, 127] + [rng.randrange(1, 128) for _ in range(40)]) if thorough else [1, rng.randrange(2, 128)]:
+        for cid in (0x700 + nid, 0x80 + nid, 0x580 + nid, 0, 0x123, 0x10000000 + 0x700 + nid):
+            yield flag_sweep(cid, nid, rng, True)
+        yield flag_sweep(0x600 + nid, nid, rng, False)
     # --- random histories
     n_hist = 40000 if thorough else 6000
     for i in range(n_hist):
@@ -931,14 +1362,29 @@ CORPUS = [
     "h 3r a:0 u:0:* d:3 n:1795:05:1 a:0 n:1795:05:2",   # removal aborted half-way
     "h - s:5:u1 s:5:u6 s:5:u2 n:5:-:1 r:5:-:2:00 q",     # raising callback
     "tx 2047 0102 0 1", "tx 2048 0102 0 1",
+    # every way out of the mapping, then frames for the nodes that left
+    "h 5r,6l a:0 a:1 v x v n:1797:04:1 n:133:1081010000000000:2 n:0:8005:3 n:1542:4000100000000000:4 n:1413:-:5",
+    "h 5r,6l,5l a:0 sd:1 pi v n:1797:04:1 n:1542:-:2 pi pi v p:5 pd:5 pd:6 up:d:0+1 v up:i:2 v sd:0 v "
+    "n:1797:04:3 n:1541:-:4 n:0:0100:5",
+    "h 5r a:0 u:0:* x v n:1797:05:1 n:0:0100:2",        # clear() swallows the KeyError of a removal stopped half-way
+    "h 5r,7r a:0 a:1 u:1797:o0.hb x v n:1799:05:1",     # … but not its ValueError
+    # only error and remote frames are not dispatched: the echo of an own transmission (is_rx False), FD, odd dlc
+    "h 5r a:0 s:291:u0 r:291:010203:1:0010000:3:0 r:291:040506:2:0000000:3:1 r:291:-:3:0110000:0:0 "
+    "r:291:-:4:1010000:0:0 r:1797:05:5:0001111:15:2 r:1797:7f:6:0000000:0:3 q",
+    "fx 5r,6l a:0 a:1 n:1797:05:1 n:1542:4000200000000000:2 x n:1797:04:3 n:133:1081010000000000:4 "
+    "n:1542:4000200000000000:5 n:1413:4300100000000000:6",
 ]
 
 LEVEL_TEXT = ("Lean 4 theorems over all histories (any length) of subscribe / unsubscribe / node add, replace, "
               "delete / add_sdo / notify / listener frames: every notify invokes exactly the list the "
               "append-if-absent multimap holds at that moment, once each, in order, with the frame's own "
               "arguments; the multimap is characterised by one activity bit per (id, callback) and keeps "
-              "relative order; after a successful delete or replacement no frame reaches any handler of the "
-              "old node object for any later history that does not add it again; frame format (extended iff "
+              "relative order; after a successful delete, pop, popitem, clear, or replacement (item assignment, "
+              "add_node, update) no frame reaches any handler of the old node object for any later history "
+              "that does not add it again, and in general no handler of a node object that is not in the node "
+              "table is ever invoked; the node table's iteration lists exactly the ids that hold a node, once; "
+              "clear = popitem until empty or a removal raises; dispatch by the listener depends on no attribute "
+              "of the message but id, data, timestamp, error and remote flag; frame format (extended iff "
               "id > 0x7FF), listener filter, scanner = first occurrences of the predefined-connection-set node "
               "ids (all CAN ids, 2 048-id table in-kernel); model tied to the code by tables recorded from the "
               "live associate_network/remove_network and a differential run over histories up to 400 steps")
